@@ -1,13 +1,19 @@
 (* C14 — interface signatures, flipping and connect() preserve direction and data flow.
    Only statements here; proofs live in Proofs/WiringP.v.  Model: Model/Wiring.v.
 
-   Proved for all signatures (any nesting, wrappers, dimensions, shapes, inits):
-     flip_involutive, flip_reverses_leaves, effective_direction, create_compliant (under the two hypotheses that
-     exclude exactly the recorded defects, each with a _refuted witness), and for connect the _partial theorems below.
-   NOT proved (validated by the differential run only): NoDup of flattened paths, connect_perm, the
-   "corruption => this error kind" direction of connect_error_iff, metadata, and the full connect_ok_spec
-   (what is missing: lifting `step_single_out` through `conn_loop` to "every input leaf exactly once"). *)
-From Coq Require Import ZArith List Bool.
+   Proved for all signature trees (any nesting, wrappers, dimensions, shapes, inits) and all argument tuples:
+     flip_involutive, flip_reverses_leaves, effective_direction, flatten_each_leaf_once,
+     create_compliant (under the two hypotheses that exclude exactly the recorded defects, each with a _refuted witness),
+     connect_ok_spec (every assignment / every input leaf / exactly once / no output, no constant driven),
+     connect_error_iff (success criterion: no member missing, kinds, widths, inits, at most one output, dimensions,
+     constants, not only inputs), no_missing_member_iff (sorted lock step = same member sets),
+     connect_perm (any permutation of the arguments), metadata_lists_leaves.
+   Hypotheses: dict keys distinct (names_ok); for the criterion in terms of constants also nodims_sig (no array of
+   interfaces: excludes exactly finding C14-connect-array-of-interfaces, refuted witness below).
+   NOT proved (validated by the differential run only): WHICH error kind is reported when several defects coexist
+   (the model follows the code's order; the run compares the kind), Signature.flatten(obj) on created objects
+   = specification leaves (object level; compared in the run), jschon schema validation. *)
+From Coq Require Import ZArith List Bool Permutation.
 From V.Model Require Import Bits Wiring.
 From V.Proofs Require Import WiringP.
 Import ListNotations.
@@ -119,3 +125,118 @@ Proof.
   vm_compute. repeat split.
 Qed.
 Print Assumptions C14_connect_refuted_array_of_interfaces.
+
+(* ===================================================================== whole-tree theorems (follow-up) *)
+
+(* --- flattening visits every member path once; the specification leaves (path with indices) are pairwise
+       distinct, and (without arrays of interfaces) they are exactly the port members expanded by their indices,
+       carrying the effective direction of C14_effective_direction --- *)
+Theorem C14_flatten_each_leaf_once (x : sigt) :
+  names_ok (top x) = true ->
+  NoDup (map fst (flat_members x)) /\ NoDup (map s_path (spec_leaves x)) /\
+  (nodims_sig x = true -> spec_leaves x = flat_map entry_leaves (flat_members x)).
+Proof.
+  intros H. split; [exact (flat_members_nodup x H)|]. split; [exact (spec_leaves_once x H)|exact (spec_leaves_are_port_entries x)].
+Qed.
+Print Assumptions C14_flatten_each_leaf_once.
+
+(* --- connect on k >= 2 arguments that passed is_compliant (check_args), any signature trees:
+       (1) an assignment is made exactly for: an input port member mi of argument i and an output port member mj of
+           argument j at the same member path p, an index idx of its dimensions, the input leaf being a Signal;
+           it is  arg_i.p[idx] <- arg_j.p[idx];
+       (2) no input leaf is assigned twice (so: exactly once when an output exists);
+       (3) no output leaf is ever assigned (and by (1) no constant). --- *)
+Theorem C14_connect_ok_spec (objs : list obj) (sigs : list sigt) (cs : list asg) :
+  check_args objs = Ok sigs -> (2 <= length sigs)%nat ->
+  (forall x, In x sigs -> names_ok (top x) = true) ->
+  connect objs = Ok cs ->
+  (forall a, In a cs <->
+     exists i j p mi mj idx,
+       port_at sigs i p mi /\ is_in (m_flow mi) = true /       port_at sigs j p mj /\ is_in (m_flow mj) = false /       In idx (idx_paths (m_dims mi)) /       is_sigr (traverse objs (i, PNs p ++ idx)) = true /       a = asg_at objs i j p idx) /\
+  NoDup (map fst cs) /\
+  (forall a, In a cs -> forall p mo idx, port_at sigs (fst (fst a)) p mo -> is_in (m_flow mo) = false ->
+        In idx (idx_paths (m_dims mo)) -> snd (fst a) <> PNs p ++ idx).
+Proof. exact (connect_ok_spec objs sigs cs). Qed.
+Print Assumptions C14_connect_ok_spec.
+
+(* --- the error side: on compliant arguments without arrays of interfaces connect succeeds iff
+       no member is missing (k_paths), every path is a port everywhere or an interface everywhere (k_kind),
+       widths and initial values agree (k_wi), at most one output per port member (k_one), the output and each
+       input have the same dimensions and a constant input meets an equal constant output (k_conn), and it is not
+       the case that inputs but no output exist; otherwise it fails --- *)
+Theorem C14_connect_error_iff (objs : list obj) (sigs : list sigt) :
+  check_args objs = Ok sigs -> (2 <= length sigs)%nat ->
+  (forall x, In x sigs -> names_ok (top x) = true) -> (forall x, In x sigs -> nodims_sig x = true) ->
+  ((exists cs, connect objs = Ok cs) <-> connectable_with (const_ok objs) sigs /\ (has_in sigs -> has_out sigs)) /\
+  ((exists e, connect objs = Err e) <-> ~ (connectable_with (const_ok objs) sigs /\ (has_in sigs -> has_out sigs))).
+Proof.
+  intros H1 H2 H3 H4. pose proof (connect_ok_iff objs sigs H1 H2 H3 H4) as K. split; [exact K|].
+  split.
+  - intros [e He] Hc. apply K in Hc. destruct Hc as [cs Hc]. congruence.
+  - intros Hn. destruct (connect objs) as [cs|e] eqn:E; [|eauto]. exfalso. apply Hn. apply K. eauto.
+Qed.
+Print Assumptions C14_connect_error_iff.
+
+(* the same criterion without assuming compliance or the absence of arrays of interfaces: the per-leaf condition is
+   then "both leaves can be reached and connect_value accepts them" (cv_ok) *)
+Theorem C14_connect_sigs_criterion (objs : list obj) (sigs : list sigt) :
+  (2 <= length sigs)%nat -> (forall x, In x sigs -> names_ok (top x) = true) ->
+  ((exists cs, connect_sigs objs sigs = Ok cs) <-> connectable objs sigs /\ (has_in sigs -> has_out sigs)).
+Proof. exact (connect_sigs_ok_iff objs sigs). Qed.
+Print Assumptions C14_connect_sigs_criterion.
+
+(* "no member missing": the lock step over the SORTED flattened members compares the member sets *)
+Theorem C14_no_missing_member_iff (x x' : sigt) :
+  names_ok (top x) = true -> names_ok (top x') = true ->
+  (map fst (sort (flat_members x)) = map fst (sort (flat_members x')) <->
+   forall p, In p (map fst (flat_members x)) <-> In p (map fst (flat_members x'))).
+Proof. exact (sorted_paths_eq_iff x x'). Qed.
+Print Assumptions C14_no_missing_member_iff.
+
+(* compliant arguments can always be traversed to a Signal or a Const at every leaf (used by the criterion) *)
+Theorem C14_compliant_traversable x o q mm idx :
+  nodims_sig x = true -> is_compliant x o = Ok true ->
+  In (q, mm) (flat_members x) -> m_is_port mm = true -> In idx (idx_paths (m_dims mm)) ->
+  exists leaf, trav o (PNs q ++ idx) = Ok leaf /\ is_leaf leaf = true.
+Proof. exact (compliant_traversable x o q mm idx). Qed.
+Print Assumptions C14_compliant_traversable.
+
+(* --- connect does not depend on the order of its arguments: for every permutation, success is preserved and the
+       assignments (as pairs of connected objects: resolve = the two traversed values) are the same multiset --- *)
+Theorem C14_connect_perm (l l' : list obj) :
+  Permutation l l' -> names_good l ->
+  (forall cs, connect l = Ok cs ->
+     exists cs', connect l' = Ok cs' /\ Permutation (map (resolve l) cs) (map (resolve l') cs')) /\
+  (forall e, connect l = Err e -> exists e', connect l' = Err e').
+Proof.
+  intros HP Hg. split; [exact (proj1 (connect_perm l l' HP Hg))|]. intros e. exact (connect_perm_error l l' e HP Hg).
+Qed.
+Print Assumptions C14_connect_perm.
+
+Example C14_connect_hypotheses_example :
+  let inner := [(0, Port FOut (Sh 3 false) 5 []); (1, Port FIn (Sh 2 true) (-1) [2%nat])] in
+  let x := (false, [(4, Iface FIn true inner []); (2, Port FOut (Sh 1 false) 0 [])]) in
+  let objs := [create x [PN 0]; create (sig_flip x) [PN 1]; create (sig_flip x) [PN 2]] in
+  check_args objs = Ok [x; sig_flip x; sig_flip x] /\
+  forallb (fun y => names_ok (top y) && nodims_sig y) [x; sig_flip x] = true /\
+  connect [create (sig_flip x) [PN 1]; create x [PN 0]] =
+    Ok [((0%nat, [PN 2]), (1%nat, [PN 2]));
+        ((0%nat, [PN 4; PN 0]), (1%nat, [PN 4; PN 0]));
+        ((1%nat, [PN 4; PN 1; PI 0]), (0%nat, [PN 4; PN 1; PI 0]));
+        ((1%nat, [PN 4; PN 1; PI 1]), (0%nat, [PN 4; PN 1; PI 1]))].
+Proof. vm_compute. repeat split. Qed.
+
+(* --- component metadata lists exactly the specification leaves (name path with indices, effective direction,
+       width, signedness, initial value), each once --- *)
+Theorem C14_metadata_lists_leaves (x : sigt) :
+  json_ports (metadata x) = spec_leaves x /\
+  (names_ok (top x) = true -> NoDup (map s_path (json_ports (metadata x)))).
+Proof.
+  split; [exact (metadata_lists_leaves x)|]. intros H. rewrite metadata_lists_leaves. exact (spec_leaves_once x H).
+Qed.
+Print Assumptions C14_metadata_lists_leaves.
+
+Example C14_metadata_example :
+  let x := (true, [(0, Iface FIn true [(1, Port FOut (Sh 3 true) (-2) [2%nat])] [])]) in
+  json_ports (metadata x) = [SLeaf [PN 0; PN 1; PI 0] FIn (Sh 3 true) (-2); SLeaf [PN 0; PN 1; PI 1] FIn (Sh 3 true) (-2)].
+Proof. vm_compute. reflexivity. Qed.
